@@ -502,7 +502,7 @@ pub fn c11_converse_adjacency_map_n2() {
     converse::<AdjacencyMap, 2>();
 }
 
-// @verif prop=C11 tier=quick fl=f2 feat=map4 role=filter/adjacency-map t=1200 mem=16
+// @verif prop=C11 tier=quick fl=f2 feat=map4 role=filter/adjacency-map t=1500 mem=30
 #[cfg_attr(kani, kani::proof)]
 #[cfg_attr(kani, kani::unwind(8))]
 pub fn c11_filter_adjacency_map_n2() {
